@@ -322,7 +322,9 @@ def redis_promptness(c):
         c.traces_validated += len(lines)
         return
     ev = json.loads(lines[at - 1])
-    if ev.get("e") == "deadline":
+    if ev.get("e") == "brief":
+        sig = "kvwait: in-memory waiters on records that ran out within microseconds never returned / returned something else than ErrNotExist"
+    elif ev.get("e") == "deadline":
         if ev.get("change") == "none":
             sig = "kvwait: %s waiter with a context deadline and no change returned %s%s" % (
                 ev.get("backend"), ev.get("res"), "" if ev.get("ctxdone") else " while its context was not done yet")
